@@ -33,6 +33,7 @@ type CtxCfg struct {
 	Before      []string `json:"before,omitempty"`
 	After       []string `json:"after,omitempty"`
 	UpFail      bool     `json:"up_fail,omitempty"`
+	DownFail    bool     `json:"down_fail,omitempty"`     // the down command exits non-zero
 	UpFailFirst bool     `json:"up_fail_first,omitempty"` // with UpFail: the first up command fails (and a succeeding one follows) instead of the last
 }
 
